@@ -40,3 +40,22 @@ def runFrom (start : Nat) (arr : List (Nat × α)) : List α := (arr.foldl recv 
 def run (arr : List (Nat × α)) : List α := runFrom 0 arr
 
 end Gofasta.Model.Reorder
+
+/-
+Model of an output writer under write faults: a run is the sequence of write calls it makes, each
+call made at a call site that either checks (and propagates) the returned error or drops it.
+The destination fails every call from the k-th on (device full, closed pipe).
+-/
+namespace Gofasta.Model.Writer
+
+/-- run the calls; `true` = the writer reported an error to its caller -/
+def run : List Bool → Nat → Nat → Bool
+  | [], _, _ => false
+  | checked :: rest, k, i =>
+    if i + 1 ≥ k ∧ checked then true          -- this call fails and the site propagates the error
+    else run rest k (i + 1)                    -- the call succeeded, or its error was dropped
+
+/-- the writer reports failure when the destination fails from call k on -/
+def reportsFailure (calls : List Bool) (k : Nat) : Bool := run calls k 0
+
+end Gofasta.Model.Writer
